@@ -31,14 +31,20 @@ L0 == [pos |-> 0, pos2 |-> 0, seq |-> 0, v |-> 0, weak |-> FALSE]
 Init == /\ MemInit
         /\ pc = [t \in Threads |-> "idle"]
         /\ loc = [t \in Threads |-> L0]
-        /\ lin = MonInit([QInit EXCEPT !.kind = "bounded", !.cap = Cap])
+        /\ lin = [mon |-> MonInit([QInit EXCEPT !.kind = "bounded", !.cap = Cap]), taken |-> {}, bad |-> "ok"]
         /\ budget = [t \in Threads |-> [push |-> MaxPush, pop |-> MaxPop]]
         /\ nextv = 1
-        /\ last = [t |-> -1, k |-> "init", lab |-> "init", v |-> 0, ok |-> 1]
+        /\ last = [t |-> -1, k |-> "init", lab |-> "init", v |-> 0, ok |-> 1, n |-> 0]
 
 Goto(t, l) == pc' = [pc EXCEPT ![t] = l]
-Acc(t, k, lab, v, ok) == last' = [t |-> t, k |-> k, lab |-> lab, v |-> v, ok |-> ok]
-Return(t, r, v) == lin' = MonRet(lin, t, r, v) /\ Goto(t, "idle")
+Acc(t, k, lab, v, ok) == last' = [t |-> t, k |-> k, lab |-> lab, v |-> v, ok |-> ok, n |-> last.n + 1]    \* n: access counter
+\* `lin` = linearizability monitor (real-time order, SC) + conservation ghost (memory-model independent)
+IsPop(t) == pc[t] \in {"o_pos", "o_seq", "o_cas", "o_pos2", "o_enq", "o_data", "o_pub"}
+Return(t, r, v) == /\ lin' = [mon |-> MonRet(lin.mon, t, r, v),
+                              taken |-> IF IsPop(t) /\ r = 1 THEN lin.taken \cup {v} ELSE lin.taken,
+                              bad |-> IF IsPop(t) /\ r = 1 /\ lin.bad = "ok" /\ (v \notin 1 .. nextv - 1 \/ v \in lin.taken)
+                                        THEN "a value was popped twice or invented" ELSE lin.bad]
+                   /\ Goto(t, "idle")
 Cell(pos) == pos % Cap
 
 LdTo(t, from, lab, x, f, to) ==
@@ -53,11 +59,11 @@ LdTo(t, from, lab, x, f, to) ==
 \* ---------------------------------------------------------------- push
 StartPush(t) == /\ pc[t] = "idle" /\ budget[t].push > 0
                 /\ \E w \in (IF AllowWeak THEN BOOLEAN ELSE {FALSE}) :
-                     /\ lin' = MonCall(lin, t, IF w THEN "wpush" ELSE "push", nextv, 0)
+                     /\ lin' = [lin EXCEPT !.mon = MonCall(@, t, IF w THEN "wpush" ELSE "push", nextv, 0)]
                      /\ loc' = [loc EXCEPT ![t] = [L0 EXCEPT !.v = nextv, !.weak = w]]
                 /\ budget' = [budget EXCEPT ![t].push = @ - 1]
                 /\ nextv' = nextv + 1
-                /\ Goto(t, "u_pos") /\ Acc(t, "call", "push", nextv, 1)
+                /\ Goto(t, "u_pos") /\ last' = [t |-> t, k |-> "call", lab |-> IF loc'[t].weak THEN "wpush" ELSE "push", v |-> nextv, ok |-> 1, n |-> last.n + 1]
                 /\ UNCHANGED memvars
 u_pos(t) == LdTo(t, "u_pos", "u_pos", ENQ, "pos", "u_seq")
 u_seq(t) == /\ pc[t] = "u_seq"
@@ -110,10 +116,10 @@ u_pub(t) == /\ pc[t] = "u_pub"
 \* ---------------------------------------------------------------- pop
 StartPop(t) == /\ pc[t] = "idle" /\ budget[t].pop > 0
                /\ \E w \in (IF AllowWeak THEN BOOLEAN ELSE {FALSE}) :
-                    /\ lin' = MonCall(lin, t, IF w THEN "wpop" ELSE "pop", 0, 0)
+                    /\ lin' = [lin EXCEPT !.mon = MonCall(@, t, IF w THEN "wpop" ELSE "pop", 0, 0)]
                     /\ loc' = [loc EXCEPT ![t] = [L0 EXCEPT !.weak = w]]
                /\ budget' = [budget EXCEPT ![t].pop = @ - 1]
-               /\ Goto(t, "o_pos") /\ Acc(t, "call", "pop", 0, 1)
+               /\ Goto(t, "o_pos") /\ last' = [t |-> t, k |-> "call", lab |-> IF loc'[t].weak THEN "wpop" ELSE "pop", v |-> 0, ok |-> 1, n |-> last.n + 1]
                /\ UNCHANGED <<nextv, memvars>>
 o_pos(t) == LdTo(t, "o_pos", "o_pos", DEQ, "pos", "o_seq")
 o_seq(t) == /\ pc[t] = "o_seq"
@@ -169,5 +175,6 @@ ThreadStep(t) == \/ StartPush(t) \/ u_pos(t) \/ u_seq(t) \/ u_cas(t) \/ u_pos2(t
 Next == \E t \in Threads : ThreadStep(t)
 Spec == Init /\ [][Next]_vars
 
-Linearizable == lin # {}
+Linearizable == lin.mon # {}
+Conservation == lin.bad = "ok"
 =============================================================================
